@@ -7,3 +7,7 @@ open Rtsp.Sdp.C05
 #print axioms marshal_wellformed
 #print axioms sample_valid
 #print axioms validity_check_sound
+#print axioms parsed_wellformed
+#print axioms sdp_reparse_idempotent
+#print axioms reparse_idempotent_partial
+#print axioms reparse_clause_fails
